@@ -531,6 +531,9 @@ func (g *gen) genBlock(bi int) {
 			ev.AgeNs = g.m.P.MaxEvidenceAge + int64(r.Range(1, 1000))*int64(time.Second)
 			if r.Chance(0.3) {
 				ev.AgeNs = g.m.P.MaxEvidenceAge + 1
+			} else if r.Chance(0.25) {
+				// less than a second beyond the window
+				ev.AgeNs = g.m.P.MaxEvidenceAge + int64(r.Range(1, 999))*int64(time.Millisecond)
 			}
 		} else {
 			ev.AgeNs = []int64{0, 1, g.m.P.MaxEvidenceAge, g.m.P.MaxEvidenceAge - 1, int64(time.Second) * 5}[r.Intn(5)]
@@ -1013,8 +1016,8 @@ func (g *gen) genTx(bi int) {
 		}
 		ref := g.accepted[r.Intn(len(g.accepted))]
 		s.ReplayBlock, s.ReplayTx = ref[0], ref[1]
-		if r.Chance(0.4) {
-			s.Mut = []string{"fee", "memo", "entropy", "msg"}[r.Intn(4)]
+		if r.Chance(0.45) {
+			s.Mut = []string{"fee", "memo", "entropy", "msg", "sflip", "sflip"}[r.Intn(6)]
 		}
 		g.addTx(bi, s)
 		return
@@ -1070,7 +1073,7 @@ func (g *gen) genTx(bi int) {
 		case 1:
 			s.ChainID = "otherchain"
 		case 2:
-			s.Mut = []string{"fee", "memo", "entropy", "msg", "sigbit", "sigtrunc", "pubkey"}[r.Intn(7)]
+			s.Mut = []string{"fee", "memo", "entropy", "msg", "sigbit", "sigtrunc", "pubkey", "sflip", "nomsg", "nopubstake"}[r.Intn(10)]
 		case 3:
 			s.KeySrc = "state"
 		case 4:
@@ -1115,7 +1118,7 @@ func (g *gen) paramValue(k string) string {
 	case "pos/StakeDenom":
 		return ParamJSON(sdk.DefaultStakeDenom)
 	case "pos/MinSignedPerWindow", "pos/SlashFractionDoubleSign", "pos/SlashFractionDowntime":
-		d, _ := sdk.NewDecFromStr([]string{"0.5", "0.1", "0", "1", "0.05", "0.25"}[r.Intn(6)])
+		d, _ := sdk.NewDecFromStr([]string{"0.5", "0.1", "0", "1", "0.05", "0.25", "0.333333333333333333", "0.0123456789", "0.0000005", "0.999999999999999999"}[r.Intn(10)])
 		return ParamJSON(d)
 	case "auth/FeeMultipliers":
 		fm := authTypes.FeeMultipliers{Default: int64(r.Range(1, 3))}
@@ -1132,6 +1135,15 @@ func (g *gen) paramValue(k string) string {
 				o = g.pickAcct()
 			}
 			acl = append(acl, govTypes.ACLPair{Key: key, Addr: g.kr.Get(o).Addr})
+		}
+		switch {
+		case r.Chance(0.1) && len(acl) > 2:
+			// a list that leaves one parameter without an owner
+			at := r.Intn(len(acl))
+			acl = append(acl[:at], acl[at+1:]...)
+		case r.Chance(0.08):
+			// a list that names a parameter nobody registered
+			acl = append(acl, govTypes.ACLPair{Key: "pos/NoSuchParameter", Addr: g.kr.Get(g.pickAcct()).Addr})
 		}
 		if r.Chance(0.3) {
 			// a hand-over done by adding a pair instead of replacing one: the key is listed twice, the first pair names the owner
